@@ -522,9 +522,9 @@ theorem parseSeq_encodeFit (o : Opts) (ho : OptsOK o) (h : Hdr) (ms : List WMsg)
   have hpos := encodeMsgs_pos o (freshEnc o) ms hf.nonempty
   have hsmall := hf.small
   have hmod : (encodeMsgs o (freshEnc o) ms).length % 4294967296 = (encodeMsgs o (freshEnc o) ms).length := Nat.mod_eq_of_lt hsmall
-  obtain ⟨items, hdec, _⟩ := encodeMsgs_roundtrip (fun _ => false) o ho.arch ms (freshEnc o) DecState.fresh 0 hf.msgs
+  obtain ⟨items, hdec, _⟩ := encodeMsgs_roundtrip (fun _ => false) o ho.arch ms (freshEnc o) DecState.fresh hf.msgs
     (DefInv.fresh o.arch o.lruCap ho.capPos ho.cap16 _) ho.cap4
-    (fun hc => ⟨⟨rfl, rfl, Nat.le_refl _, by simp [freshEnc], by decide⟩, hf.ts hc⟩)
+    (fun _ => Or.inl rfl)
     (Wire.le16 (Fit.Crc.write 0 (encodeMsgs o (freshEnc o) ms)) ++ tail) _ (Nat.le_refl _)
   obtain ⟨recs, hrecs, _⟩ := records_spec (fun _ => false) _ _ _ _ _ hdec FitFormat.Defs.empty (off + h.size)
     (encodeMsgs o (freshEnc o) ms).length rel_fresh (Nat.le_refl _)
